@@ -138,6 +138,11 @@ static bool run_once(double dt, const double y0) {
     for (int g = 0; g < NSYS; g++) { data[g].nH = 1.0; data[g].Tgas = 10.0; }
     double y[NTOT];
     for (int i = 0; i < NTOT; i++) y[i] = y0;
+    /* a long-lived object that was finalised and is initialised again (host codes do this between output intervals):
+       everything Solve needs, the failure record included, belongs to the second initialisation */
+    naunet.Init(NSYS, 1e-20, 1e-5, 500);
+    naunet.Finalize();
+    free(verif_log_buf); verif_log_buf = NULL; verif_log_len = 0;
     g_bad_config = 0;
     naunet.Init(NSYS, VERIF_ATOL, VERIF_RTOL, VERIF_MXSTEPS);
 #ifdef VERIF_PYENTRY
